@@ -142,11 +142,27 @@ def load_corpus(verif, pid):
     return []
 
 
+def _sweep_old_case_dirs(base: str, max_age_s: int = 7200) -> None:
+    import shutil
+    import time
+    now = time.time()
+    try:
+        for n in os.listdir(base):
+            q = os.path.join(base, n)
+            if os.path.isdir(q) and n.startswith("p") and now - os.path.getmtime(q) > max_age_s:
+                shutil.rmtree(q, ignore_errors=True)
+    except OSError:
+        pass
+
+
 def coq_eval(verif: str, pid: str, name: str, body: str, timeout: int = 900) -> str:
     """Evaluate a generated Coq file (e.g. `Eval vm_compute in ...`) against the compiled theories.
     Returns coqc's stdout+stderr; raises on failure.  Files live under build/cases/<pid>/."""
-    d = os.path.join(verif, "build", "cases", pid)
+    # one directory per process: concurrent checks of the same property must not see each other's files
+    base = os.path.join(verif, "build", "cases", pid)
+    d = os.path.join(base, f"p{os.getpid()}")
     os.makedirs(d, exist_ok=True)
+    _sweep_old_case_dirs(base)
     path = os.path.join(d, name + ".v")
     with open(path, "w") as f:
         f.write(body)
